@@ -3,18 +3,7 @@ import json, subprocess, sys
 from pathlib import Path
 ROOT = Path(__file__).resolve().parent.parent
 
-CHECKS = {
- 'C07': dict(
-    technique='Coq proof: kernel-decided complete table comparison (vm_compute) lifted by c07_check_iff; tables regenerated from /repo each run',
-    design_ref='3.7',
-    text=('Proof. The ten truth tables, value set and designated set of every registered logic are re-extracted from '
-          '/repo on every run and emitted as Gallina data; the Coq kernel decides, per (logic, component), agreement with '
-          'the literature tables written by formula in Sem/Lit.v, the definitional identities, assertion transparency, '
-          'closure of the value set and agreement of every modal extension with its base; theorem c07_check_iff lifts each '
-          'decided check to the quantified statement. The domain is finite and enumerated completely, so this decides the property.'),
-    note=('Trusted: Coq kernel + vm_compute; Sem/Lit.v as the specification of the documented tables; tools/probe_facts.py '
-          '(reads Model.truth_table); correspondence ties truth_table() to the truth function the evaluator calls and to value_of().')),
-}
+CHECKS = {p.stem: json.load(open(p)) for p in sorted((ROOT / 'tools' / 'manifest.d').glob('C*.json'))}
 
 NOT_YET = {}
 
